@@ -333,7 +333,7 @@ func (env *Env) deref(v Val) Val {
 		}
 		s := e.d.SortOf(et)
 		if isArray(et) {
-			return term(sel(env.heapGet(e.d.ElemHeap(e.d.SortOf(elemType(et)))), v.T), s, et)
+			return term(sel(env.heapGet(e.d.ElemHeapT(elemType(et))), v.T), s, et)
 		}
 		return term(sel(env.heapGet(e.d.BoxHeap(s)), v.T), s, et)
 	case KField:
@@ -475,7 +475,7 @@ func (env *Env) index(v, i Val) Val {
 			return term(e.mkERef(env.st, et, app("sarr", v.T), idx), SRef, ptrMarker{types.NewPointer(et)})
 		}
 		es := e.d.SortOf(et)
-		return term(sel(sel(env.heapGet(e.d.ElemHeap(es)), app("sarr", v.T)), idx), es, et)
+		return term(sel(sel(env.heapGet(e.d.ElemHeapT(et)), app("sarr", v.T)), idx), es, et)
 	case SRef:
 		if v.Typ != nil {
 			if mt, ok := v.Typ.Underlying().(*types.Map); ok {
@@ -486,7 +486,7 @@ func (env *Env) index(v, i Val) Val {
 			if pt, ok := v.Typ.Underlying().(*types.Pointer); ok {
 				if at, ok := pt.Elem().Underlying().(*types.Array); ok {
 					es := e.d.SortOf(at.Elem())
-					return term(sel(sel(env.heapGet(e.d.ElemHeap(es)), v.T), i.T), es, at.Elem())
+					return term(sel(sel(env.heapGet(e.d.ElemHeapT(at.Elem())), v.T), i.T), es, at.Elem())
 				}
 			}
 		}
@@ -799,7 +799,7 @@ func (env *Env) call(x *ast.CallExpr) Val {
 	case "alive":
 		argn(1)
 		v := env.eval(x.Args[0])
-		return term(sel(env.alive(), v.T), SBool, nil)
+		return term(fmt.Sprintf("(< (stamp %s) %s)", v.T, env.alive()), SBool, nil)
 	case "fresh":
 		argn(1)
 		v := env.materialize(env.eval(x.Args[0]))
@@ -810,7 +810,7 @@ func (env *Env) call(x *ast.CallExpr) Val {
 		if env.old == nil {
 			env.fail("fresh() needs a pre-state")
 		}
-		return term(and(not(eq(r, "rnil")), not(sel(env.old.alive, r))), SBool, nil)
+		return term(and(not(eq(r, "rnil")), fmt.Sprintf("(>= (stamp %s) %s)", r, env.old.alive)), SBool, nil)
 	case "off":
 		argn(1)
 		v := env.materialize(env.eval(x.Args[0]))
@@ -861,7 +861,7 @@ func (env *Env) call(x *ast.CallExpr) Val {
 			env.fail("elems of []struct")
 		}
 		es := e.d.SortOf(et)
-		return term(sel(env.heapGet(e.d.ElemHeap(es)), app("sarr", v.T)), Sort(fmt.Sprintf("(Array Int %s)", es)), nil)
+		return term(sel(env.heapGet(e.d.ElemHeapT(et)), app("sarr", v.T)), Sort(fmt.Sprintf("(Array Int %s)", es)), nil)
 	case "box":
 		argn(1)
 		v := env.materialize(env.eval(x.Args[0]))
